@@ -214,13 +214,16 @@ var properties = map[string]*propDef{
 	"C08": {
 		Level: "exploration",
 		Rule:  "a case picks a mode (static / dynamic / http with writer, streamer or iterator flow), the merge option, a channel catalogue and one agreed sequence of key sets; the script mixes upd (one side applies the next agreed key set, key order reversed on the decoder), enc (puts a message in flight), dec (delivers the oldest) and raw/burst operations; each side may run up to 3 updates ahead. Frames cover all 15 data types, empty frames and series, subsets, shuffled and repeated keys, >128 entries, keys outside the set, equal/unequal lengths, zero/equal/distinct time ranges and alignments (all 36 legal flag bytes). Every delivery first presents corrupted copies of the message (every prefix, bit flips, overwritten length fields up to 0xFFFFFFFF, overwritten sequence number or flags, garbage with a plausible header, duplicates, splices, chunked stream reads), then the genuine message, which must still round-trip. non-trivial = >=1 compared frame with an in-set series or >=1 hostile decode",
-		Real:  []string{"core/pkg/distribution/framer/codec (NewStatic, NewDynamic+Update against a real channel service on a mock distribution node, Encode/EncodeStream/Decode/DecodeStream), core/pkg/transport/http/framer.Codec with json.Codec over WSMessage[Writer|Streamer|Iterator Request/Response], x/go/binary, x/go/telem \u2014 real code"},
+		Real:  []string{"core-codec-conc: one codec.NewDynamic, Update (its hand-over part, without the channel-service look-up) and Encode as two tasks under the seeded goroutine scheduler in a synctest bubble, codec.go instrumented (atomics, channel operations, selects) \u2014 real code", "core/pkg/distribution/framer/codec (NewStatic, NewDynamic+Update against a real channel service on a mock distribution node, Encode/EncodeStream/Decode/DecodeStream), core/pkg/transport/http/framer.Codec with json.Codec over WSMessage[Writer|Streamer|Iterator Request/Response], x/go/binary, x/go/telem \u2014 real code"},
 		Stub:  []string{"the websocket / freighter transport: messages are byte slices in FIFO queues between the encoder and decoder instances; corrupted JSON requests aimed at the server go to a scratch codec instance"},
 		Assumptions: []string{"round trip: per channel the series in stable alignment order; without merging exact, with merging the normalised lists of maximal contiguous runs are equal; int64 and timestamp are interchangeable; keys outside the set are dropped", "a decoder that is behind must return an error, one that is ahead must decode correctly", "safety: no panic, heap allocation delta <= 1 MiB + 128 x len(input) (runtime/metrics), a frame returned for hostile bytes uses only keys and data types of the state its sequence number selects, whole samples, no more data than the input; length claims above 16 MiB are clamped so the worker survives"},
-		RequiredProbes: []string{"decoder_ahead", "decoder_behind", "frame_beyond_mask", "frame_repeated_key", "frame_subset", "series_variable", "series_empty", "hostile_accepted", "hostile_error", "hostile_claim_beyond_bound", "http_compact_frame", "http_data_before_negotiation", "update_backlog_full"},
+		RequiredProbes: []string{"concurrent_update_encode_case", "update_returned_during_an_encode", "encode_before_first_update_panicked", "decoder_ahead", "decoder_behind", "frame_beyond_mask", "frame_repeated_key", "frame_subset", "series_variable", "series_empty", "hostile_accepted", "hostile_error", "hostile_claim_beyond_bound", "http_compact_frame", "http_data_before_negotiation", "update_backlog_full"},
 		Units: []unit{{
 			Name: "core-codec", Module: "core", Package: "./pkg/distribution/framer/codec", Passes: []string{"detrange"}, Engines: []string{"c08"},
 			QuickBudget: 25 * time.Second, QuickWorkers: 8, ThoroughBudget: 12 * time.Minute, ThoroughWorkers: 16,
+		}, {
+			Name: "core-codec-conc", Module: "core", Package: "./pkg/distribution/framer/codec", Passes: allPasses, Engines: []string{"c08-conc"},
+			QuickBudget: 10 * time.Second, QuickWorkers: 4, ThoroughBudget: 3 * time.Minute, ThoroughWorkers: 16,
 		}},
 	},
 	"C14": {
